@@ -42,6 +42,15 @@ def rule_norm(text, spec=False):
             continue
         else:
             segs[-1][1] += c.lower() if spec else c
+    # a long string literal may be printed in pieces joined with `+` where the line is wrapped: 'ab' = 'a'+'b'
+    merged = []
+    for q, x in segs:
+        if q and len(merged) >= 2 and merged[-1] == [False, "+"] and merged[-2][0]:
+            merged.pop()
+            merged[-1][1] = merged[-1][1][:-1] + x[1:]
+        else:
+            merged.append([q, x])
+    segs = merged
     # 1.0 and 1. are the same real literal (how it is printed is the expression printer's choice)
     out = [x if q else re.sub(r"(\d+\.\d*?)0+(?!\d)", r"\1", x) for q, x in segs]
     t = "".join(out)
